@@ -33,8 +33,8 @@ def build_jobs(tier, seed, kf_on):
         depth = label.count("+") + 1
         schema = {t: progs.SCHEMA[t] for t in tables}
         if tier == "quick":
-            if depth > 1 and idx % 2:
-                continue
+            if depth == 2 and not progs.quick_keep(label, 2):
+                continue  # about every second 2-step program, chosen by content (see progs.quick_keep)
             vecs = [{t: (2 if i < 2 else 1) for i, t in enumerate(tables)}]
             if depth == 1:
                 vecs += [{t: 0 for t in tables}, {t: 1 for t in tables}]
@@ -44,7 +44,7 @@ def build_jobs(tier, seed, kf_on):
             vecs = [{t: (2 if i < 2 else 1) for i, t in enumerate(tables)}, {t: 0 for t in tables}, {t: 1 for t in tables}, {t: (3 if i == 0 else 1) for i, t in enumerate(tables)}]
         for rows in vecs:
             rid = ",".join(f"{t}={n}" for t, n in rows.items())
-            lazies = [False, True] if (tier != "quick" or depth == 1 or idx % 4 == 0) else [idx % 3 == 0]
+            lazies = [False, True] if (tier != "quick" or depth == 1 or progs.quick_keep(label + "#both", 4)) else [progs.quick_keep(label + "#lazy", 3)]
             for lazy in lazies:
                 jobs.append(simple.tv_job(f"{label}@{rid} {'lazy' if lazy else 'eager'}", schema, rows, {"kind": "pandas", "src": src}, {"kind": "polars", "src": src, "lazy": lazy},
                                           kf_on, tier, b_may_raise=True, max_paths=1200 if tier == "quick" else 6000, wall_s=60 if tier == "quick" else 200))
